@@ -418,7 +418,13 @@ def contains(self, container, item):
         if is_strlike(item):
             if not is_symbolic(item) and not is_symbolic(container):
                 return item in container
-            return simp(z3.Contains(as_sstr(container).z3(), as_sstr(item).z3()))
+            zi = as_sstr(item).z3()
+            if not is_symbolic(container) and _is_single_char(zi):
+                # membership of one character in a constant string: a finite disjunction over code points (much easier than str.contains)
+                codes = sorted(set(ord(ch) for ch in (container if isinstance(container, str) else as_sstr(container).concrete())))
+                cp = z3.StrToCode(zi)
+                return simp(z3.Or(*[cp == o for o in codes])) if codes else False
+            return simp(z3.Contains(as_sstr(container).z3(), zi))
         self.do_raise(TypeError, ("'in <string>' requires string as left operand",), True)
         return False
     if isinstance(container, (tuple, list, set, frozenset, dict)) or isinstance(container, (types.MappingProxyType,)) or hasattr(container, "__contains__"):
@@ -432,6 +438,14 @@ def contains(self, container, item):
         items = list(container)
         return zor(*[self.compare(ast.Eq(), item, x) for x in items])
     raise Unsupported(f"`in` on {type(container).__name__}")
+
+
+def _is_single_char(z):
+    try:
+        return z.decl().kind() == z3.Z3_OP_SEQ_EXTRACT and z3.is_int_value(z.arg(2)) and z.arg(2).as_long() == 1 and False or \
+            (z.decl().kind() == z3.Z3_OP_SEQ_EXTRACT and z3.is_int_value(z3.simplify(z.arg(2))) and z3.simplify(z.arg(2)).as_long() == 1)
+    except Exception:
+        return False
 
 
 @E
@@ -631,15 +645,22 @@ def get_slice(self, obj, lo, hi, step):
         s = as_sstr(obj).z3()
         n = z3.Length(s)
 
+        base = self.pc + [zbool(self.guard())]
+
         def clamp(v, default):
             if v is None:
                 return default
             v = to_int(v)
+            # drop the clamping when the path condition already bounds the index (keeps the terms syntactically simple for the string solver)
+            if not feasible(base + [z3.Or(v < 0, v > n)], 2000):
+                return v
+            if not feasible(base + [v <= n], 2000):
+                return n
             v = z3.If(v < 0, v + n, v)
             return z3.If(v < 0, z3.IntVal(0), z3.If(v > n, n, v))
         a = clamp(lo, z3.IntVal(0))
         b = clamp(hi, n)
-        ln = z3.If(b > a, b - a, z3.IntVal(0))
+        ln = z3.simplify(b - a) if not feasible(base + [b < a], 2000) else z3.If(b > a, b - a, z3.IntVal(0))
         return norm_str(SStr((z3.simplify(z3.SubString(s, a, ln)),)))
     raise Unsupported("slice")
 
@@ -752,7 +773,21 @@ def iterate(self, v):
         return [k if p is True else GuardedItem(p, k) for k, p in ((k, v.present[k]) for k in v.items)]
     if isinstance(v, _LazyIter):
         return v.items
-    if isinstance(v, SStr) or is_z3(v):
+    if isinstance(v, SStr) or (is_z3(v) and z3.is_string(v)):
+        # iteration over a symbolic string: decide its length (0..4); longer strings need a loop contract
+        zs = as_sstr(v).z3()
+        n = z3.Length(zs)
+        K = 4
+        conds = [simp(n == k) for k in range(K + 1)] + [simp(n > K)]
+        idx = self.oracle.choose(self, ("strlen", K), conds)
+        if idx > K:
+            raise Unsupported("iteration over a symbolic string longer than 4 characters (needs loop contract)")
+        if zs.decl().kind() == z3.Z3_OP_SEQ_EXTRACT:
+            # characters of a slice are characters of the sliced string (the slice has exactly idx characters on this path)
+            base, a = zs.arg(0), zs.arg(1)
+            return [norm_str(SStr((z3.SubString(base, z3.simplify(a + j), 1),))) for j in range(idx)]
+        return [norm_str(SStr((z3.SubString(zs, j, 1),))) for j in range(idx)]
+    if is_z3(v):
         raise Unsupported("iteration over symbolic-length value (needs loop contract)")
     if isinstance(v, SSet):
         raise Unsupported("iteration over symbolic set")
